@@ -375,7 +375,9 @@ PATS = {  # per user name: patterns that user may own
 }
 HOSTS = ['alice!u@h', 'ALICE!U@H', 'alice!x@a.example', 'bob!x@host', 'bob!x@bobs.host', 'b{o}b!q@r', 'zed!carol@z',
          'carol!carol@x', 'dave!d@trusted.host', 'erin!e@e', 'x!y@z.example', 'fr[nk!a@b', 'frank!f@host', 'frank!f@hxst',
-         'zed!z@z', 'nobody!n@n', 'alice!x@trusted.host', 'alice', 'BOB', 'carol', 'nobody']
+         'zed!z@z', 'nobody!n@n', 'alice!x@trusted.host', 'alice', 'BOB', 'carol', 'nobody',
+         # separators inside the user / nick part: user hostmasks all the same (the host follows the last @)
+         'dave!d@relay@trusted.host', 'erin!!e@e.example']
 
 def swapcase_irc(r, s):
     """a random IRC-case variant (ASCII letters and the four rfc1459 pairs)"""
